@@ -45,6 +45,7 @@ type Engine struct {
 	entry      *ssa.Function
 	solverLog  string
 	maxPaths   int
+	params     map[string]int
 }
 
 type Worker struct {
@@ -129,6 +130,7 @@ func main() {
 	maxViol := flag.Int("maxviol", 3, "stop an entry after this many violations")
 	solverLog := flag.String("solverlog", "", "write worker-0 solver dialogue to this file")
 	maxPaths := flag.Int("maxpaths", 0, "stop after this many paths (0 = no limit; a limited run is inconclusive)")
+	params := flag.String("params", "", "harness parameters name=int,...")
 	flag.Var(&overlays, "overlay", "virtual=real overlay file (repeatable)")
 	flag.Parse()
 
@@ -168,6 +170,16 @@ func main() {
 		if k != "" {
 			eng.known[k] = true
 		}
+	}
+	eng.params = map[string]int{}
+	for _, kv := range strings.Split(*params, ",") {
+		if kv == "" {
+			continue
+		}
+		p := strings.SplitN(kv, "=", 2)
+		n := 0
+		fmt.Sscanf(p[1], "%d", &n)
+		eng.params[p[0]] = n
 	}
 	eng.registerModels()
 	loadS := time.Since(t0).Seconds()
